@@ -122,7 +122,7 @@ def exec_case(params):
     if "fit_intercept" in R.KNOBS.get(sname, {}):
         skw2["fit_intercept"] = fi
     obs = {}
-    for tag, fac in (("above", 1 + 1e-8), ("below", 1 - 1e-3)):
+    for tag, fac in (("above", 1 + 1e-8), ("far_above", 10.0), ("below", 1 - 1e-3)):
         comp = dict(solver=dict(name=sname, kw=skw2), datafit=dspec, penalty=dict(pspec, alpha=amax * fac), X=params["X"], y=params["y"],
                     storage=params["storage"])
         res = C.execute(comp)
@@ -138,11 +138,11 @@ def exec_case(params):
         obs[tag] = w
         pen_idx = [j for j in range(p) if j not in unpen]
         nz = np.any(coef[pen_idx] != 0) if coef.ndim == 1 else np.any(coef[pen_idx] != 0)
-        if tag == "above" and nz and skw.get("ws_strategy") == "fixpoint" and (fi or unpen) and np.max(np.abs(coef[pen_idx])) <= 1e-10:
+        if tag in ("above", "far_above") and nz and skw.get("ws_strategy") == "fixpoint" and (fi or unpen) and np.max(np.abs(coef[pen_idx])) <= 1e-10:
             # fixed-point scoring stops as soon as ||w - prox(w - grad/L)|| <= tol: a block made transiently non-zero while the
             # unpenalised part was being fitted may be returned one prox step (of length <= tol) before it becomes exactly zero
             nz = False
-        if tag == "above":
+        if tag in ("above", "far_above"):
             # with an intercept / unpenalised features to fit, penalised coefficients may be transiently non-zero before convergence
             if nz and not (converged or (not fi and not unpen)):
                 pass
@@ -185,7 +185,13 @@ def cases_for(i, tier, chunk=None):
         if chunk is not None and di % NCHUNK != chunk:
             continue
         n, p = X.shape
-        for tname, y in R.targets(kind, X, tier):
+        tgs = R.targets(kind, X, tier)
+        if kind == "clf":
+            tgs = tgs + [("unbalanced", np.array([1., 1., 1., -1., 1., -1., 1., 1.])[:n])]      # null-model intercept != 0
+        if kind == "multi":                       # one task whose null-model intercept is exactly 0 next to tasks with a large one
+            g = A.reg_targets(X)["generic"]
+            tgs = tgs + [("centred+shifted", np.column_stack([g - g.mean(), g + 5.0, g + 2.0]))]
+        for tname, y in tgs:
             for dspec in R.datafit_specs(dn, X, "thorough" if tier != "quick" else "quick")[:2]:
                 fis = [True, False] if "fit_intercept" in R.KNOBS.get(sname, {}) else [False]
                 for fi in fis:
